@@ -340,6 +340,8 @@ def run_daemon(world, spec):
     stdin, stdout, stderr = client.make_streams(session, sess_spec.get("stdin_errors", "surrogateescape"))
     saved = (sys.stdin, sys.stdout, sys.stderr, sys.__stdout__, sys.__stderr__, sys.__stdin__)
     client.install_fd_seams(world, session, stdin, stdout, stderr)
+    from .seams_base import STDOUT_PROXY
+    STDOUT_PROXY.target = stdout  # import-time bindings of sys.stdout in the package reach the real stdout
     sys.stdin = sys.__stdin__ = stdin
     sys.stdout = sys.__stdout__ = stdout
     sys.stderr = sys.__stderr__ = stderr
@@ -441,6 +443,8 @@ def execute(spec, send, recv):
     if spec["kind"] == "api":
         # Python-level stdout/stderr of an API caller: counted, not judged
         sys.stdout = io.TextIOWrapper(io.BufferedWriter(_Count(world, "py-stdout")), encoding="utf-8", errors="replace")
+        from .seams_base import STDOUT_PROXY
+        STDOUT_PROXY.target = sys.stdout
         sys.stderr = io.TextIOWrapper(io.BufferedWriter(_Count(world, "py-stderr")), encoding="utf-8", errors="replace")
         out = run_api(world, spec)
         try:
